@@ -152,7 +152,7 @@ pub fn driver_table(test: &Test) -> Vec<Signal> {
     t
 }
 
-fn iterate<D: TestDriver<Error = DrvErr>>(
+pub fn iterate_pub<D: TestDriver<Error = DrvErr>>(
     tc: &TestCase,
     drv: &mut D,
     log: &std::rc::Rc<RefCell<Log>>,
@@ -266,10 +266,10 @@ pub fn trace_run(prep: &Prepared, cfg: &RunCfg, policy: Policy) -> Vec<J> {
         let (core, log) = Core::new(table.clone(), policy);
         if cfg.own_write {
             let mut d = DrvW(core);
-            iterate(&tc, &mut d, &log, &table, cfg, 1, &mut out);
+            iterate_pub(&tc, &mut d, &log, &table, cfg, 1, &mut out);
         } else {
             let mut d = Drv(core);
-            iterate(&tc, &mut d, &log, &table, cfg, 1, &mut out);
+            iterate_pub(&tc, &mut d, &log, &table, cfg, 1, &mut out);
         }
     }
     out.push(json!({"ev":"end","run":cfg.run}));
